@@ -121,7 +121,19 @@ def run_e2_property(prop: str, tier: str, seed: int, configs: Iterable, *, seria
     samples = []
     busiest = None
     harness_errors = []
-    for kind, outs in pmap(_work, items):
+    import os as _os
+    import time as _time
+    t_start = _time.time()
+    stop_after = float(_os.environ.get('VERIF_STOP_AFTER_VIOLATION', '420') or 420)
+    stopped_early = False
+    results = pmap(_work, items)
+    for kind, outs in results:
+        if viols and _time.time() - t_start > stop_after:
+            # the verdict is already "violated"; a tree on which the code under test spins in every
+            # configuration would otherwise keep the check busy for hours
+            stopped_early = True
+            results.close()
+            break
         if kind == 'harness-error':
             harness_errors.extend(outs)
             continue
@@ -215,7 +227,7 @@ def run_e2_property(prop: str, tier: str, seed: int, configs: Iterable, *, seria
         'configs_with_several_outcomes': multi_outcome_cfgs,
         'max_choice_depth': max_depth,
         'capped_configurations': capped,
-        'exhaustive': capped == 0,
+        'exhaustive': capped == 0 and not stopped_early,
         'violating_executions': viol_execs,
     }
     if extra_cov:
@@ -223,6 +235,8 @@ def run_e2_property(prop: str, tier: str, seed: int, configs: Iterable, *, seria
     res = Result(prop=prop, level='model_checking', coverage=cov, assumptions=list(assumptions), violations=viols)
     for he in harness_errors[:3]:
         res.notes.append(f'harness error in a slice (violations above come from the other slices): {he[:300]}')
+    if stopped_early:
+        res.notes.append(f'stopped after {stop_after:.0f} s with violations already found: the remaining slices were not explored')
     if capped:
         res.notes.append(f'{capped} configurations hit the per-configuration execution cap {max_exec_per_cfg}')
     return res
